@@ -1,7 +1,7 @@
 SPECIFICATION Spec
 CONSTANTS
   Streams <- OneStream
-  Classes <- ClassesQ
+  Classes <- ClassesQ4
   TsClasses <- TsOne
   Cols <- ColsAll
   ClassKinds <- KindsTabQ
@@ -10,10 +10,10 @@ CONSTANTS
   LowerOf <- LowerTab
   QNums <- QNumsAll
   QWords <- QWordsAll
-  MaxEvents = 5
+  MaxEvents = 3
   MaxBatch = 2
-  MaxFlush = 3
-  MaxRotate = 2
+  MaxFlush = 2
+  MaxRotate = 1
   MaxRestart = 1
   MaxPromote = 1
   PromoteOps <- PromoSome
